@@ -22,6 +22,7 @@ type CCase struct {
 	Phases   [][][]COp `json:"phases"` // phase -> goroutine -> ops
 	Force    bool      `json:"force"`  // final Close(force)
 	Procs    int       `json:"procs,omitempty"`
+	Late     int       `json:"late,omitempty"` // handles taken before Close and released only after it (the second one is also Deleted while held)
 	Spread   int       `json:"spread,omitempty"` // 0: small keys; 1: every other key/namespace has the top bit set; 2: keys scattered over all 64 bits
 }
 
@@ -294,10 +295,23 @@ func runCache(c *CCase) (st cStats, err error) {
 	}
 	gs := h.c.GetStats()
 	st.grow, st.shrink = gs.GrowCount, gs.ShrinkCount
+	var late []*heldHandle
+	for j := 0; j < c.Late; j++ {
+		ns, key := c.spread(uint64(j%max1(c.NSpace))), c.spread(uint64(j*7%max1(c.KeySpace)))
+		if x := h.get(ns, key, 1); x != nil {
+			late = append(late, x)
+			if j == 1 {
+				h.del(ns, key)
+			}
+		}
+	}
 	if c.Force {
 		atomic.StoreInt32(&h.forceClosed, 1)
 	}
 	h.c.Close(c.Force)
+	for _, x := range late {
+		h.release(x)
+	}
 	if e := h.err.Load(); e != nil {
 		return st, fmt.Errorf("close: %v", e.(error))
 	}
@@ -332,6 +346,7 @@ func drawCCase(t *rapid.T) *CCase {
 	c.KeySpace = rapid.SampledFrom([]int{8, 2000, 3, 40, 300}).Draw(t, "keyspace")
 	c.NSpace = rapid.SampledFrom([]int{2, 1, 5}).Draw(t, "nspace")
 	c.Spread = rapid.SampledFrom([]int{0, 0, 1, 2}).Draw(t, "spread")
+	c.Late = rapid.SampledFrom([]int{0, 0, 1, 2, 3}).Draw(t, "late")
 	c.Force = rapid.Bool().Draw(t, "force")
 	c.Procs = rapid.SampledFrom([]int{0, 1, 2, 4}).Draw(t, "procs")
 	maxOps := 200
@@ -398,6 +413,7 @@ func TestC17(t *testing.T) {
 		add(st.shrink > 0, "map-shrank")
 		add(st.sameKeyOverlap > 0, "overlapping-same-key-handles")
 		add(c.Spread > 0, "keys-using-all-64-bits")
+		add(c.Late > 0, "handles-released-after-close")
 		add(st.delH > 0, "delete-while-handle-outstanding")
 		add(c.Force, "close-force")
 		add(c.Cap < 0, "no-cacher")
